@@ -257,6 +257,8 @@ package gomavlib
 //@              specIsStreamRequest(6, sr.node, evt.Channel, sr.msgRequestDataStream, SYS, COMP, 4, uint64(sr.node.StreamRequestFrequency)) &&
 //@              specIsStreamRequest(7, sr.node, evt.Channel, sr.msgRequestDataStream, SYS, COMP, 5, uint64(sr.node.StreamRequestFrequency)) &&
 //@              specIsStreamRequest(8, sr.node, evt.Channel, sr.msgRequestDataStream, SYS, COMP, 6, uint64(sr.node.StreamRequestFrequency))
+//@   ensures  [each-request-is-a-new-message] REQ ==> newValue(logArg(2, 2)) && newValue(logArg(3, 2)) && newValue(logArg(4, 2)) && newValue(logArg(5, 2)) &&
+//@              newValue(logArg(6, 2)) && newValue(logArg(7, 2)) && newValue(logArg(8, 2))
 //@   ensures  [one-stream-requested-event] REQ ==> dynIs(logArg(9, 1), "*gomavlib.EventStreamRequested") &&
 //@              logArg(9, 1).(*EventStreamRequested).Channel == evt.Channel &&
 //@              logArg(9, 1).(*EventStreamRequested).SystemID == SYS && logArg(9, 1).(*EventStreamRequested).ComponentID == COMP
@@ -275,6 +277,7 @@ package gomavlib
 //@   ensures  [ticker-has-the-configured-period] logCallee(0, "time.NewTicker") && logArgDuration(0, 0) == h.node.HeartbeatPeriod
 //@   loop 0 invariant logCallee(0, "time.NewTicker") && logArgDuration(0, 0) == h.node.HeartbeatPeriod
 //@   loop 0 body-ensures [one-heartbeat-per-tick] logLen() == 2 && logIs(0, "recv", "C") && logCallee(1, "(*gomavlib.Node).WriteMessageAll") && logArgIsPtr(1, 0, h.node)
+//@   loop 0 body-ensures [a-new-message-every-tick] newValue(logArg(1, 1))
 //@   loop 0 body-ensures [configured-fields] sameDynType(logArg(1, 1), h.msgHeartbeat) && rvFieldsSet(logArg(1, 1)) == 6 &&
 //@                    rvField(logArg(1, 1), "Type") == uint64(h.node.HeartbeatSystemType) &&
 //@                    rvField(logArg(1, 1), "Autopilot") == uint64(h.node.HeartbeatAutopilotType) &&
